@@ -3,7 +3,8 @@
    the reference matcher of Model/Cep.v (patterns, DEFINE classification, WITHIN, AFTER MATCH SKIP,
    MATCH_NUMBER, partitions, end of stream); the Go engine is tied to it by the correspondence run. *)
 From Coq Require Import List ZArith NArith Bool Arith Lia.
-From SV Require Import Model.Cep Spec.CepSpec Proofs.CepProofs.
+From Coq Require Import Permutation.
+From SV Require Import Model.Cep Spec.CepSpec Proofs.CepProofs Proofs.CepSugar Proofs.CepChecker.
 Import ListNotations.
 
 (* Brzozowski derivatives decide the pattern language, for every pattern and every word *)
@@ -74,10 +75,36 @@ Theorem C15_other_partition_row_ignored : forall c p q r s1 s2, q <> p ->
 Proof. intros. apply ref_partition_isolation. apply part_rows_other. assumption. Qed.
 Print Assumptions C15_other_partition_row_ignored.
 
-(* the extracted checker that judges the implementation's output accepts only the reference's result *)
+(* the extracted checker that judges the implementation's output raises no alarm exactly when the
+   implementation reported the reference's result (row ids are distinct) *)
 Theorem C15_checker_sound : forall c rows out, chk_C15 c rows out = None -> out = ref_obs c rows.
 Proof. exact chk_sound. Qed.
 Print Assumptions C15_checker_sound.
+
+Theorem C15_checker_iff : forall c rows out, NoDup (map r_id rows) ->
+  (chk_C15 c rows out = None <-> out = ref_obs c rows).
+Proof. exact chk_iff. Qed.
+Print Assumptions C15_checker_iff.
+
+(* the surface operators denote what they say (desugaring = cep/pattern.go compileRepeat/compilePermute):
+   {n,m}, ?, {n}: between n and m copies; {n,}, *, +: at least n copies; PERMUTE: any order *)
+Theorem C15_rep_bounded : forall mn mx s w, mn <= mx ->
+  (word_in (desugar (SRep mn (Some mx) s)) w <->
+   exists ws, mn <= length ws <= mx /\ Forall (word_in (desugar s)) ws /\ w = concat ws).
+Proof. exact rep_bounded. Qed.
+Print Assumptions C15_rep_bounded.
+
+Theorem C15_rep_unbounded : forall mn s w,
+  word_in (desugar (SRep mn None s)) w <->
+  exists ws, mn <= length ws /\ Forall (word_in (desugar s)) ws /\ w = concat ws.
+Proof. exact rep_unbounded. Qed.
+Print Assumptions C15_rep_unbounded.
+
+Theorem C15_permute : forall l w,
+  word_in (desugar (SPermute l)) w <->
+  exists l', Permutation (map desugar l) l' /\ word_in (seq_list l') w.
+Proof. exact permute_iff. Qed.
+Print Assumptions C15_permute.
 
 (* non-vacuity. PATTERN (A B+ C?) with DEFINE A: class 0, B: class 1 and v > PREV(v), C: class 2,
    SKIP PAST LAST ROW, WITHIN 10, on the classes 0 1 1 2 0 1 (v rising, then falling): the matches
